@@ -2,6 +2,7 @@ package props
 
 import (
 	"fmt"
+	"os"
 	"strings"
 	"time"
 
@@ -132,11 +133,34 @@ func runC07(r *core.Run) {
 			fnk := cols[1+rng.Intn(5)]
 			sql = "SELECT DISTINCT " + strings.Join(names2, ", ") + ", " + []string{"RANK", "ROW_NUMBER", "DENSE_RANK"}[rng.Intn(3)] + "() OVER (ORDER BY " + fnk + []string{"", " DESC"}[rng.Intn(2)] + ") AS zz FROM t ORDER BY " + strings.Join(parts, ", ")
 		}
+		// every eighth case: a computed select-list item (e = k3 * -1) and a leading ORDER BY key that is an expression of
+		// its own (k3 * -2: the same order as e); the result must still be the rows of t, each with its own e, sorted by e
+		exprKey := c%8 == 7 && n > 0 && perm == nil && !customDT
+		if exprKey {
+			dir := []string{"", " DESC", " ASC NULLS LAST", " DESC NULLS FIRST"}[rng.Intn(4)]
+			ek := sortKey{I: 7, Desc: strings.Contains(dir, "DESC")}
+			ek.Nf = !ek.Desc
+			if strings.Contains(dir, "NULLS") {
+				ek.Nf = strings.Contains(dir, "FIRST")
+			}
+			keys = append([]sortKey{ek}, keys...)
+			sql = "SELECT *, k3 * -1 AS e FROM t ORDER BY k3 * -2" + dir + ", " + strings.Join(parts, ", ")
+		}
 		m := 0
 		lim := map[string]interface{}{"k": "none", "n": 0}
 		ties := false
 		vals := []int{-1, 0, 1, 2, 3, 5, n - 1, n, n + 1, n / 2, 1000}
-		if tiecut {
+		wantInner := c%5 == 4 && n >= 2 && perm == nil && !exprKey
+		forcePct := wantInner && !tiecut && rng.Intn(2) == 0
+		if forcePct {
+			p := []int{10, 33, 50, 99}[rng.Intn(4)]
+			lim = map[string]interface{}{"k": "pct", "n": p}
+			sql += fmt.Sprintf(" LIMIT %d PERCENT", p)
+			if rng.Intn(3) == 0 {
+				sql += " WITH TIES"
+				ties = true
+			}
+		} else if tiecut {
 			x := 1 + rng.Intn(n-1)
 			lim = map[string]interface{}{"k": "n", "n": x}
 			sql += fmt.Sprintf(" LIMIT %d WITH TIES", x)
@@ -163,13 +187,23 @@ func runC07(r *core.Run) {
 				ties = true
 			}
 		}
-		if rng.Intn(2) == 0 && !(tiecut && rng.Intn(2) == 0) {
+		if !forcePct && rng.Intn(2) == 0 && !(tiecut && rng.Intn(2) == 0) {
 			m = vals[rng.Intn(len(vals))]
 			sql += fmt.Sprintf(" OFFSET %d", m)
 			if rng.Intn(10) == 0 {
 				m = 1000000
 				sql = sql[:strings.LastIndex(sql, " OFFSET ")] + " OFFSET 1e30"
 			}
+		}
+		// every fifth case: the rows come from a derived table that has an OFFSET of its own (it drops the rows with the smallest
+		// ids); the outer OFFSET / LIMIT / PERCENT count the rows the outer query receives, nothing else
+		inner := 0
+		if wantInner {
+			inner = []int{1, 2, n / 2, n / 2, n / 3, n - 1}[rng.Intn(6)]
+			if inner < 1 {
+				inner = 1
+			}
+			sql = strings.Replace(sql, "SELECT * FROM t ORDER BY", fmt.Sprintf("SELECT * FROM (SELECT * FROM t ORDER BY id OFFSET %d) s ORDER BY", inner), 1)
 		}
 		cpu := []int{1, 4, 8}[rng.Intn(3)]
 		x := newRelRun(r, cpu, t)
@@ -208,6 +242,21 @@ func runC07(r *core.Run) {
 			continue
 		}
 		in, idc := t.Rows, 1
+		if inner > 0 {
+			in = t.Rows[inner:]
+			sig += ":derived-offset"
+		}
+		if exprKey {
+			in = nil
+			for _, row := range t.Rows {
+				e := classify("", true)
+				if !row[3].N {
+					e = classify(fmt.Sprint(-row[3].bi), false)
+				}
+				in = append(in, append(append([]rcell{}, row...), e))
+			}
+			sig += ":expression-key"
+		}
 		if perm != nil {
 			// judge in the permuted column order: project the input, drop the analytic column of the result, re-index the keys
 			pos := map[int]int{}
@@ -239,6 +288,9 @@ func runC07(r *core.Run) {
 		}
 		evs = append(evs, relEvent{SQL: sql, Sig: sig, CPU: cpu, Ev: map[string]interface{}{
 			"kind": "sort", "in": cellsJSON(in), "res": cellsJSON(res), "keys": keys, "m": m, "lim": lim, "ties": ties, "idc": idc}})
+		if inner > 0 && os.Getenv("VERIF_DEBUG") != "" {
+			fmt.Fprintln(os.Stderr, "DEBUG", sql, n, len(res), lim, m)
+		}
 		r.Distinct(sql + fmt.Sprint(n))
 		if c < 3 {
 			r.Sample(map[string]interface{}{"sql": sql, "rows": n, "cpu": cpu, "returned": len(res)})
